@@ -1,6 +1,6 @@
 """Case generators (op scripts) and property oracles (the Spec layer evaluated on what the real code
 returned) for the correspondence families.  Every random choice comes from a vlib.Rng."""
-import collections
+import collections, functools
 from vlib import Rng, hx, unhx
 
 ALPHA = [0x00, 0x01, 0x7f, 0x80, 0xfe, 0xff, ord('a'), ord('b')]
@@ -426,7 +426,7 @@ def gen_merger_case(rng, stats, focus="C04"):
     heap_stress = rng.chance(1, 4)
     ns = rng.pick([7, 8, 9, 10, 12, 15]) if heap_stress else rng.pick([0, 1, 2, 2, 3, 3, 4, 6])
     universe = gen_keys(rng, rng.pick([12, 16, 24]) if heap_stress else rng.pick([1, 3, 6, 10, 16]), stats, long_ok=False)
-    mode = rng.pick(["union", "union", "union", "none", "dupsort", "fail"])
+    mode = rng.pick(["union", "union", "union", "lcp", "none", "dupsort", "fail"])
     if heap_stress:
         stats.bump("merger_heap_stress")
     stats.bump("merger_mode_" + mode); stats.bump("merger_sources_%d" % ns)
@@ -450,6 +450,8 @@ def gen_merger_case(rng, stats, focus="C04"):
         es = []
         for ei, k in enumerate(ks):
             v = tok(si, ei)
+            if mode == "lcp":
+                v = bytes(rng.pick([0x61, 0x61, 0x62]) for _ in range(rng.pick([0, 1, 2, 3, 5, 9])))
             if mode == "none":
                 v = b"=="            # order among equal keys is unspecified without dupsort: give ties equal values
             es.append((k, v))
@@ -464,7 +466,7 @@ def gen_merger_case(rng, stats, focus="C04"):
     if mode == "fail":
         multi = [k for k in allkeys if sum(1 for _, es in srcs for kk, _ in es if kk == k) >= 2]
         failkey = rng.pick(multi) if multi and rng.chance(3, 4) else (rng.pick(allkeys) if allkeys else b"zz")
-    marg = {"union": "merge=union", "none": "merge=none", "dupsort": "merge=none dupsort=1", "fail": "merge=fail:%s" % hx(failkey or b"")}[mode]
+    marg = {"union": "merge=union", "lcp": "merge=lcp", "none": "merge=none", "dupsort": "merge=none dupsort=1", "fail": "merge=fail:%s" % hx(failkey or b"")}[mode]
     lines.append("m.new 1 " + marg)
     for kind, es in srcs:
         lines.append("m.src 1 kind=%s bs=%d ri=%d %s" % (kind, rng.pick([16, 32, 64]), rng.pick([1, 2, 3]), " ".join("%s %s" % (hx(k), hx(v)) for k, v in es)))
@@ -502,6 +504,11 @@ def merged_content(mode, srcs):
             toks = sorted(t for v in out[k] for t in [v[i:i + 2] for i in range(0, len(v), 2)])
             res.append((k, b"".join(toks), len(out[k])))
         return res
+    if mode == "lcp":
+        out = {}
+        for k, v in allents:
+            out.setdefault(k, []).append(v)
+        return [(k, functools.reduce(lcp_bytes, out[k]), len(out[k])) for k in sorted(out)]
     if mode == "dupsort":
         return [(k, v, 1) for k, v in sorted(allents)]
     return [(k, v, 1) for k, v in sorted(allents, key=lambda e: e[0])]
@@ -525,7 +532,7 @@ def oracle_merger(res):
         elif op == "m.new":
             kvs = dict(a.split("=", 1) for a in t[2:] if "=" in a)
             mg = kvs.get("merge", "none")
-            mode = "union" if mg == "union" else "fail" if mg.startswith("fail:") else "dupsort" if kvs.get("dupsort") == "1" else "none"
+            mode = "union" if mg == "union" else "lcp" if mg == "lcp" else "fail" if mg.startswith("fail:") else "dupsort" if kvs.get("dupsort") == "1" else "none"
             mergers[t[1]] = {"mode": mode, "failkey": unhx(mg[5:]) if mode == "fail" else None, "srcs": []}
         elif op == "m.src":
             vals = [a for a in t[2:] if "=" not in a]
@@ -600,14 +607,20 @@ def gen_sorter_case(rng, stats, pool=None):
         keys = list(dict.fromkeys(keys))
         if rng.chance(1, 2):
             keys.reverse()
-    merge = "none" if shape == "distinct" and rng.chance(1, 2) else "union"
+    merge = "none" if shape == "distinct" and rng.chance(1, 2) else rng.pick(["union", "union", "lcp"])
+    stats.bump("sorter_merge_" + merge)
     mem = rng.pick([1, 24, 40, 64, 100, 200, 400, 1000, 100000])
     pool = rng.pick([None, None, 0, 1, 2, 4, 8]) if pool is None else pool
     stats.bump("sorter_pool_%s" % pool); stats.bump("sorter_mem_%d" % mem)
     lines = ["reset", "@i sys.info",
              "s.new 1 mem=%d minmem=0 merge=%s eo=$i.eo pid=$i.pid%s" % (mem, merge, "" if pool is None else " pool=%d" % pool)]
     for ai, k in enumerate(keys):
-        lines.append("s.add 1 %s %s" % (hx(k), hx(bytes([0x30 + (ai >> 8), ai & 0xff]))))
+        if merge == "lcp":
+            # values of different lengths with common prefixes: the fold of two values is SHORTER than either operand
+            v = bytes(rng.pick([0x61, 0x61, 0x62]) for _ in range(rng.pick([0, 1, 2, 3, 5, 9])))
+        else:
+            v = bytes([0x30 + (ai >> 8), ai & 0xff])
+        lines.append("s.add 1 %s %s" % (hx(k), hx(v)))
     via_write = rng.chance(1, 4)
     if via_write:
         lines += ["w.new 5 comp=0 bs=64 ri=2 minbs=16 pre=-", "s.write 1 5", "s.add 1 61 3030", "s.write 1 5", "w.fin 5", "r.openw 6 5", "r.it 6 20 iter"]
@@ -621,6 +634,13 @@ def gen_sorter_case(rng, stats, pool=None):
             lines += ["m.seek 20 %s" % hx(gen_query_key(rng, sorted(set(keys)))), "m.next 20", "m.next 20"]
     lines.append("s.spills 1")
     return lines
+
+
+def lcp_bytes(a, b):
+    n = 0
+    while n < len(a) and n < len(b) and a[n] == b[n]:
+        n += 1
+    return a[:n]
 
 
 def oracle_sorter(res):
@@ -656,7 +676,10 @@ def oracle_sorter(res):
             want = {}
             for k, v in S["adds"]:
                 want.setdefault(k, []).append(v)
-            content = [(k, b"".join(sorted(want[k]))) for k in sorted(want)]
+            if S["kv"].get("merge") == "lcp":
+                content = [(k, functools.reduce(lcp_bytes, want[k])) for k in sorted(want)]
+            else:
+                content = [(k, b"".join(sorted(want[k]))) for k in sorted(want)]
             S["content"] = content
             if op == "s.iter":
                 if real != "ok":
